@@ -14,13 +14,26 @@ Streams (all driven by the one seeded PRNG):
              end, a digit = radix / > radix / 255 at each position class, empty slice
   range      radix 0, 1, 37 (str) / 257 (slices), 2^32-1
   thorough   adds exhaustive enumeration at (8,1): every value 0..2M+r with every sign and 0..2 leading zeros for
-             every radix, all strings of length <= 3 over a 7-letter alphabet, all slices of length <= 2 over
+             every radix, all strings of length <= 3 over a 7-letter alphabet, all slices of length <= 3 over
              {0,1,r-1,r,255}; all leading-zero counts 0..40; all lengths on configurations up to 192 bits."""
 from .common import *
 from .ops_c10 import OPS
 
 PROP, BIN, RUNMOD, RUNFN = "C10", "c10", "RunC10", "run_C10"
 MODES = [True, False]
+EXTRA_TRUSTED = [
+    "coq/Model/Parse.v utf8_valid: core::str::from_utf8(buf).is_ok() is MODELLED as the well-formed byte sequences of "
+    "Unicode table 3-7 (exercised by the harness on ASCII, valid multi-byte and 17 invalid patterns + random bytes)",
+    "coq/Model/Parse.v from_le_slice/from_be_slice: minimal LOCAL model of BUint::from_le_slice/from_be_slice used only for "
+    "radix 256 in from_radix_be/le (the faithful model of src/buint/endian.rs is property C15's); exercised by the harness",
+    "coq/Model/Parse.v d_mul/d_add/d_checked_mul: primitive digit `*`, `+`, checked_mul (overflow panics iff overflow checks are on)",
+    "the `0 =>` arm of from_buf_radix_internal (disabled 8|32|64|128 branch) is dead code (every caller asserts radix >= 2) and is not modelled",
+]
+ASSUMPTIONS = [
+    "theorems hold for digit widths w > 0 with w mod 8 = 0 and digit counts n >= 1",
+    "premises of the C10 theorems (coq/Proofs/ParseDeps.v), owned by other properties: U_overflowing_add_spec (C01), bit_spec and "
+    "trailing_zeros_spec (C06), I_wrapping_neg_spec (C01), is_negative_spec (C07)",
+]
 
 DIG = "0123456789abcdefghijklmnopqrstuvwxyz"
 
